@@ -408,8 +408,7 @@ def run(ctx: Ctx) -> None:
             ctx.sample({"quote_record": {"bsCount": recs[0][0], "sCount": recs[0][1], "after": recs[0][2], "result": recs[0][3]}})
         # tie of the modelled sub-parsers (q_line_endings / q_nul are theorems about exactly these models)
         from . import miniblock
-        miniblock.tie(ctx, drv, 1500 if quick else 40000)
-        miniblock.tie_quote(ctx, drv, 2000 if quick else 50000)
+        miniblock.tie_all(ctx, drv, quick)
     finally:
         drv.close()
     ctx.partial += [
